@@ -423,6 +423,13 @@ func backwardSlice(v ssa.Value, stop func(ssa.Value) bool) map[ssa.Value]bool {
 				walk(*o)
 			}
 		}
+		if a, ok := x.(*ssa.Alloc); ok {
+			for _, r := range *a.Referrers() {
+				if st, ok := r.(*ssa.Store); ok && st.Addr == a {
+					walk(st.Val)
+				}
+			}
+		}
 		// a load from a local alloc depends on every store to it
 		if u, ok := x.(*ssa.UnOp); ok && u.Op == token.MUL {
 			if a, ok := u.X.(*ssa.Alloc); ok {
